@@ -23,11 +23,8 @@ const (
 	// generation, gadget ciphertext and ModDown all handle LevelP=-1) makes
 	// gadgetProductSinglePAndBitDecompLazy call params.PiOverflowMargin(-1) = slices.Max(pi[:0]): panic.
 	sigLevelPMinus1 = "C04/GadgetProduct/key-LevelP=-1-on-parameters-with-P/panic(PiOverflowMargin)"
-	// No P and BaseTwoDecomposition=0 (the default key on parameters without P):
-	// gadgetProductSinglePAndBitDecompLazy calls DecomposeAndSplit(levelQ, -1, nbPi = levelP+1 = 0, i, ..)
-	// whose lvlQStart = i·nbPi = 0: every RNS digit is taken from prime 0. Wrong result (error ≈ Q) for
-	// every ciphertext level ≥ 1, silently.
-	sigNoPNoBase2 = "C04/GadgetProduct/no-P,BaseTwoDecomposition=0/wrong-result"
+	// (the former class "no P, BaseTwoDecomposition=0" — every RNS digit read from prime 0 — was fixed in
+	// /repo afcaae4 and is judged normally; known/*/q45x3-noP keeps its leaves as controls)
 	// BaseTwoDecompositionVectorSize allots ceil(round(log2 q_i)/b) digits: for a prime just above a
 	// power of two (bit length = round(log2)+1) and b | round(log2 q_i) the digits cover one bit less
 	// than the residues need; residues ≥ 2^(digits·b) lose their top bit in the key switch.
@@ -40,7 +37,11 @@ const (
 	// up to ≈7.6q (C01 known finding: above the documented 6q−2), which for q ≈ 2^61 leaves no headroom
 	// below 2^64. Root cause is in ring/ (C01/C19 territory); the consequence is a C04 violation on
 	// accepted parameters.
-	sigCIOddLogN61 = "C04/ModDown(NTT)/ConjugateInvariant-ring,odd-logN,61-bit-Q/wrong-result"
+	// ApplyEvaluationKey works at min(input level, receiver level) but, unlike Relinearize and the
+	// Automorphism methods, never resizes a receiver that is above that level: the returned ciphertext
+	// reports the receiver's old level and carries stale residues on the upper primes.
+	sigApplyNoResize = "C04/ApplyEvaluationKey/receiver-above-input-level/not-resized-to-operation-level"
+	sigCIOddLogN61   = "C04/ModDown(NTT)/ConjugateInvariant-ring,odd-logN,61-bit-Q/wrong-result"
 )
 
 // digitsTooFew: BaseTwoDecompositionVectorSize allots ceil(round(log2 q_i)/b) digits of b bits to
@@ -75,8 +76,6 @@ func knownKS(p rlwe.Parameters, kp keyParams, level int, isNTT bool) string {
 		return sigDigitCount
 	case kp.levelP == -1 && p.PCount() > 0:
 		return sigLevelPMinus1
-	case kp.levelP == -1 && kp.base2 == 0:
-		return sigNoPNoBase2
 	}
 	return ""
 }
@@ -92,13 +91,15 @@ func ksScenario(rt ring.Type, logN int, ch rk.Chain, bound int) engine.Scenario 
 		kp := chooseKeyParams(c, p, true)
 		level := kp.levelQ - c.Choose(kp.levelQ+1, "ctLevel")
 		isNTT := c.Choose(2, "IsNTT") == 0
-		inPlace := c.Bool("inPlace")
+		// receiver: 0 fresh at the input's level, 1 the input itself, 2 fresh one level BELOW the input,
+		// 3 stale and ABOVE the input (top level) — the operation runs at the minimum of the two levels
+		outMode := c.Choose(4, "out")
 		top := c.Bool("operand")
 		if knownKS(p, kp, level, isNTT) != "" {
 			c.Skip(skipKnown)
 			return
 		}
-		runKS(c, name, p, op, kp, level, isNTT, inPlace, top)
+		runKS(c, name, p, op, kp, level, isNTT, outMode, top)
 	}}
 }
 
@@ -120,7 +121,7 @@ func knownScenario(rt ring.Type, logN int, ch rk.Chain, class string) engine.Sce
 			kp.levelP = p.MaxLevelP() - c.ChooseFree(2, "LevelP")
 		case sigDigitCount:
 			kp.levelP, kp.base2, top = 0, []int{1, 2, 30}[c.ChooseFree(3, "base2")], true
-		case sigNoPNoBase2, sigLevelPMinus1:
+		default: // LevelP=-1 classes
 			kp.base2 = []int{0, 16}[c.ChooseFree(2, "base2")] // base 16: control for the no-P class
 		}
 		level := kp.levelQ - c.ChooseFree(2, "ctLevel")
@@ -131,18 +132,20 @@ func knownScenario(rt ring.Type, logN int, ch rk.Chain, class string) engine.Sce
 		}
 		c.Cover("known-class", k)
 		if op := c.ChooseFree(len(ksOps)+1, "op"); op < len(ksOps) {
-			runKS(c, name, p, op, kp, level, isNTT, false, top)
+			runKS(c, name, p, op, kp, level, isNTT, 0, top)
 		} else {
 			runAuto(c, name, p, 0, p.GaloisElement(1), kp, level, isNTT, false, top)
 		}
 	}}
 }
 
-func runKS(c *engine.Chooser, name string, p rlwe.Parameters, op int, kp keyParams, level int, isNTT, inPlace, top bool) {
+func runKS(c *engine.Chooser, name string, p rlwe.Parameters, op int, kp keyParams, level int, isNTT bool, outMode int, top bool) {
 	rt := p.RingType()
+	inPlace := outMode == 1
 	{
 		c.Cover("operand", map[bool]string{false: "uniform", true: "top-of-range"}[top])
-		cfg := fmt.Sprintf("%s %s ctLevel=%d IsNTT=%v inPlace=%v top=%v", ksOps[op], kp, level, isNTT, inPlace, top)
+		cfg := fmt.Sprintf("%s %s ctLevel=%d IsNTT=%v out=%d top=%v", ksOps[op], kp, level, isNTT, outMode, top)
+		c.Cover("out", []string{"fresh-same-level", "in-place", "fresh-below-input", "stale-above-input"}[outMode])
 		c.Note("%s", cfg)
 		c.Cover("op", ksOps[op])
 		c.Cover("IsNTT", fmt.Sprint(isNTT))
@@ -176,6 +179,7 @@ func runKS(c *engine.Chooser, name string, p rlwe.Parameters, op int, kp keyPara
 
 		var out *rlwe.Ciphertext
 		var want, sOut []*big.Int
+		aboveInput := false
 		err, pan := uni.Try(func() error {
 			switch ksOps[op] {
 			case "ApplyEvaluationKey":
@@ -189,7 +193,17 @@ func runKS(c *engine.Chooser, name string, p rlwe.Parameters, op int, kp keyPara
 				}
 				want, sOut = rk.Phase(rt, rQ, &ct.Element, s), s2
 				out = ct
-				if !inPlace {
+				wantLevel := level
+				switch {
+				case outMode == 2 && level > 0:
+					wantLevel = level - 1
+					out = rlwe.NewCiphertext(p, 1, wantLevel)
+					want = rk.CenterAll(want, qAt(p, wantLevel))
+					bnd = ksBound(p, wantLevel, kp, beOf(p), bsOf(p))
+				case outMode == 3 && level < p.MaxLevel():
+					out = uniformCt(p, 1, p.MaxLevel(), isNTT, name, cfg, "stale")
+					aboveInput = true
+				case !inPlace:
 					out = rlwe.NewCiphertext(p, 1, level)
 				}
 				in := *ct.MetaData
@@ -198,6 +212,15 @@ func runKS(c *engine.Chooser, name string, p rlwe.Parameters, op int, kp keyPara
 				}
 				if !metaEqual(out.MetaData, &in) {
 					return fmt.Errorf("metadata not propagated: %+v -> %+v", in, *out.MetaData)
+				}
+				if out.Level() != wantLevel {
+					if aboveInput {
+						c.Fail(sigApplyNoResize, "%s: receiver at level %d above the input (level %d): the result is written on %d primes but the receiver keeps level %d (stale residues on the primes above)",
+							cfg, p.MaxLevel(), level, wantLevel+1, out.Level())
+						out = nil
+						return nil
+					}
+					return fmt.Errorf("output level %d, want min(input, receiver) = %d", out.Level(), wantLevel)
 				}
 			case "Relinearize":
 				rlk := kgen.GenRelinearizationKeyNew(sk, kp.evk())
